@@ -66,6 +66,9 @@ def _expand_chunk(entries):
     copier = getattr(system, "copy", copy.deepcopy)
     nontrivial = getattr(system, "nontrivial", None)
     within = getattr(system, "within_bounds", None)
+    prune = getattr(system, "prune", None)
+    rebuild = getattr(system, "rebuild", False)
+    npruned = 0
     for hist, dg in entries:
         w0 = build(system, hist)
         if _digest(system, w0) != dg:
@@ -79,7 +82,10 @@ def _expand_chunk(entries):
             k = _SEED % len(ops)
             ops = ops[k:] + ops[:k]
         for op in ops:
-            w = copier(w0)
+            if rebuild:
+                w = build(system, hist)     # worlds that cannot be deep-copied (classes, metaclass state)
+            else:
+                w = copier(w0)
             obs = system.apply(w, op)
             if obs is SKIP or obs == SKIP:
                 continue
@@ -96,12 +102,15 @@ def _expand_chunk(entries):
                     else:
                         e[0] += 1
                 continue          # states behind a violating transition are not expanded
+            if prune is not None and prune(w0, op, w, obs):
+                npruned += 1      # assume/guarantee: another property's violation, not expanded
+                continue
             if nontrivial is not None and nontrivial(w0, op, w, obs):
                 nnontriv += 1
             d = _digest(system, w)
             if d != dg and d not in succ:
                 succ[d] = hist + (op,)
-    return succ, viols, ntrans, nvalid, nnontriv, outcomes
+    return succ, viols, ntrans, nvalid, nnontriv, outcomes, npruned
 
 
 class Result:
@@ -124,6 +133,7 @@ def explore(system, *, seed=0, workers=None, max_states=None, time_cap=None, log
     res.transitions = 0
     res.validated = 0
     res.nontrivial = 0
+    res.pruned = 0
     res.depth = 0
     res.exhaustive = True
     res.cap = None
@@ -156,7 +166,8 @@ def explore(system, *, seed=0, workers=None, max_states=None, time_cap=None, log
                 chunks = [frontier[i:i + n] for i in range(0, len(frontier), n)]
                 results = pool.imap_unordered(_expand_chunk, chunks)
             nxt = []
-            for succ, viols, ntrans, nvalid, nnontriv, outcomes in results:
+            for succ, viols, ntrans, nvalid, nnontriv, outcomes, npruned in results:
+                res.pruned += npruned
                 res.transitions += ntrans
                 res.validated += nvalid
                 res.nontrivial += nnontriv
@@ -206,6 +217,7 @@ def coverage_from(res, rule, extra=None):
         "level_sizes": res.levels,
         "distinct_observed_outcomes": len(res.outcomes),
         "samples": [{"history": h} for h in res.sample_histories[-6:]],
+        "transitions_pruned_other_property": res.pruned,
     }
     if res.cap:
         cov["cap_hit"] = res.cap
